@@ -178,7 +178,9 @@ int reb_binary_diff(char* buf1, size_t size1, char* buf2, size_t size2, char** b
                 pos2 = 64; // For next search
                 are_different = 1.;
                 if (output_option==0){
-                    reb_output_stream_write(bufp, &allocatedsize, sizep, &field1,sizeof(struct reb_binary_field));
+                    struct reb_binary_field field1_empty = field1;
+                    field1_empty.size = 0; // no payload follows
+                    reb_output_stream_write(bufp, &allocatedsize, sizep, &field1_empty,sizeof(struct reb_binary_field));
                 }else if (output_option==1 || output_option==3){
                     const struct reb_binary_field_descriptor fd = reb_binary_field_descriptor_for_type(field1.type);
                     char* buf;
